@@ -52,7 +52,10 @@ def strategy(ctx):
         lambda t: (t[0] + "p" * t[1]) if t[2] == "head" else ("p" * t[1] + t[0]) if t[2] == "tail" else ("p" * (t[1] // 2) + t[0] + "p" * (t[1] // 2)))
     # multi-line messages (upstream/TLS connect errors span several lines): markup after the first line
     multi = st.tuples(short, st.sampled_from(["\n", "\r\n", "\n\n", "\n  "])).map(lambda t: "Errno 111 connect failed" + t[1] + t[0] + t[1] + "tail")
-    payload = st.one_of(short, short, short, long_, multi)
+    # compatibility forms of the markup characters (fullwidth, small): harmless as they are, live markup after any Unicode
+    # normalisation / transliteration step on the way into the page
+    confusable = st.tuples(short, st.sampled_from(list(CONFUSABLE))).map(lambda t: t[0].translate(t[1]))
+    payload = st.one_of(short, short, short, long_, multi, confusable)
     return st.tuples(st.sampled_from(H1_KINDS + H1_KINDS + H2_KINDS), payload, st.booleans())
 
 
@@ -97,9 +100,18 @@ class Collect(html.parser.HTMLParser):
         self.other.append(("unknown", data))
 
 
+CONFUSABLE = [
+    {ord("<"): "\uff1c", ord(">"): "\uff1e", ord("&"): "\uff06", ord('"'): "\uff02", ord("'"): "\uff07", ord("/"): "\uff0f", ord("="): "\uff1d"},
+    {ord("<"): "\ufe64", ord(">"): "\ufe65", ord("&"): "\ufe60", ord("="): "\ufe66"},
+    {ord("<"): "\uff1c", ord(">"): "\uff1e"},
+    {ord("<"): "\u2039", ord(">"): "\u203a", ord('"'): "\u201d", ord("'"): "\u2019"},
+]
+_CONF_CHARS = "".join(sorted({v for t in CONFUSABLE for v in t.values()}))
+
+
 def neutral(payload: str) -> str:
-    """the same message with every markup-significant character replaced by a letter"""
-    return re.sub(r"[<>&\"'/=!#;-]", "x", payload)
+    """the same message with every markup-significant character (and its compatibility forms) replaced by a letter"""
+    return re.sub(r"[<>&\"'/=!#;\-%s]" % _CONF_CHARS, "x", payload)
 
 
 def structure(body: bytes):
